@@ -276,9 +276,20 @@ def f_ghost_no_default(it, g, pos, spell):
     if (gname == "ghost_owned" and not covers_owned) or (gname == "ghost_ref" and not covers_ref):
         gname = "ghost"
     f = Field(name, "i32", [Instr(gname, "ghost", container=zn, action=None, bar=False, spelling=spell)])
+    others = [t.f["ty"] for t in _trait_instrs(it) if t.f["ty"] != zn]
+    sub = ""
+    if others and g.chance(0.5):
+        # the same member is a rule-abiding ghost (with default) for another counterpart, written before or after the faulty one
+        ok = Instr("ghost", "ghost", container=g.pick(others), action=f"k{g.mark()}()", braced=True, spelling=spell)
+        if g.chance(0.6):
+            f.attrs.insert(0, ok)
+            sub = "/after_valid_ghost"
+        else:
+            f.attrs.append(ok)
+            sub = "/before_valid_ghost"
     i = _ins(it.fields, pos, f)
     mname = name if named else str(i)
-    return Fault("ghost_no_default", f"{gname}/{nm}", [f"Member instruction #[ghost(...)] for member '{mname}' should provide default value for type {zn}"])
+    return Fault("ghost_no_default", f"{gname}/{nm}{sub}", [f"Member instruction #[ghost(...)] for member '{mname}' should provide default value for type {zn}"])
 
 
 def f_child_no_parents(it, g, pos, spell):
@@ -349,13 +360,48 @@ def f_untyped_parent(it, g, pos, spell):
     return Fault("untyped_parent", f"{form}/{nm}", [f"Field 'q{k}' should have type here, e.g. 'q{k}: SomeStruct'"])
 
 
+INTO_ALL_NAMES = INTO_NAMES + ["owned_into_existing", "ref_into_existing", "into_existing", "owned_try_into_existing", "ref_try_into_existing", "try_into_existing"]
+
+
+def f_parent_index_no_name(it, g, pos, spell):
+    """a tuple-typed parent flattened into a counterpart addressed by field names: every index entry has to name its field"""
+    if it.kind != "struct" or it.shape != "named":
+        return None
+    zn, nm = _new_counterpart(it, g, pos, INTO_ALL_NAMES, spell)
+    k = g.mark()
+    form = g.pick(["single", "second_of_two", "dedicated_bar"])
+    if form == "second_of_two":
+        args, idx, pre = f"[map(a{k})] 0, 1", "1", "..., "
+    else:
+        args, idx, pre = "0", "0", ""
+    f = Field(f"pp{k}", f"P{k}", [Instr("parent", "parent", container=zn, fields=args, spelling=spell)])
+    _ins(it.fields, pos, f)
+    return Fault("parent_index_no_name", f"{form}/{nm}", [f"Member {idx} should have an instruction that specifies corresponding field name of type {zn}, e.g. #[parent({pre}[map(field_name)] {idx}, ...)]"])
+
+
 def f_repeat_conflict(it, g, pos, spell):
     nm = g.pick(["from_owned", "owned_into", "map", "try_from_ref"])
     fal = nm.startswith("try")
-    sub = g.pick(["vars", "update", "return", "default", "unterminated"])
+    sub = g.pick(["vars", "update", "return", "default", "unterminated", "follower_only"])
     a_ty, b_ty = _fresh(g), _fresh(g)
     if sub == "update" and it.kind != "struct":
         sub = "return"
+    if sub == "follower_only":
+        # the template repeats every parameter kind but sets only one; the follower sets another kind itself, without skip_repeat
+        kinds_ = ["vars", "update", "return", "default"] if it.kind == "struct" else ["vars", "return", "default"]
+        tp, fp = g.r.sample(kinds_, 2)
+        par = {"vars": ("vars", [("v", "1")]), "update": ("update", "k()"), "return": ("return", "k()"), "default": ("default", "=> k()")}
+        a = Instr(nm, "trait", ty=a_ty, hint=None, err="Er" if fal else None, params=[("repeat", []), par[tp]], spelling=spell)
+        b = Instr(nm, "trait", ty=b_ty, hint=None, err="Er" if fal else None, params=[par[fp]], spelling=spell)
+        msg = {"vars": "Vars will be overriden. Did you forget to use 'skip_repeat'?",
+               "update": "Update statement will be overriden. Did you forget to use 'skip_repeat'?",
+               "return": "Quick Return statement will be overriden. Did you forget to use 'skip_repeat'?",
+               "default": "Default Case statement will be overriden. Did you forget to use 'skip_repeat'?"}[fp]
+        i = _ins(it.attrs, pos, a)
+        it.attrs.insert(g.r.randint(i + 1, len(it.attrs)), b)
+        if any(x.kind == "trait" and x.name == nm and x is not a and x is not b for x in it.attrs):
+            return Fault("repeat_conflict", f"follower_only/{tp}/{fp}", [re.compile(r"will be overriden\. Did you forget to use 'skip_repeat'\?$|^Previous repeat\(\) instruction must be terminated with 'stop_repeat'$")], parse_stage=True)
+        return Fault("repeat_conflict", f"follower_only/{tp}/{fp}", [msg], parse_stage=True)
     par = {"vars": ("vars", [("v", "1")]), "update": ("update", "k()"), "return": ("return", "k()"), "default": ("default", "=> k()")}
     if sub == "unterminated":
         a = Instr(nm, "trait", ty=a_ty, hint=None, err="Er" if fal else None, params=[("repeat", []), ("return", "k()")], spelling=spell)
@@ -389,6 +435,7 @@ INJECTORS = {
     "child_no_parents": f_child_no_parents,
     "shape_mismatch": f_shape_mismatch,
     "untyped_parent": f_untyped_parent,
+    "parent_index_no_name": f_parent_index_no_name,
     "repeat_conflict": f_repeat_conflict,
 }
 POSITIONS = ["first", "middle", "last"]
